@@ -277,6 +277,8 @@ pub enum Op {
     JoinStart { h: Slot },
     /// ... and await the oldest kept join future
     JoinFinish,
+    /// ... or drop the oldest kept join future without ever polling it
+    JoinDiscard,
 
     // ---- handle manipulation
     Clone { h: Slot, to: Slot },
